@@ -678,7 +678,11 @@ type FloatNode struct {
 }
 
 func (n *FloatNode) String() string {
-	return strconv.FormatFloat(n.Value, 'g', -1, 64)
+	var s = strconv.FormatFloat(n.Value, 'g', -1, 64)
+	if !strings.ContainsAny(s, ".e") {
+		s += ".0" // "2" would be read as an integer
+	}
+	return s
 }
 
 type StringNode struct {
